@@ -1,5 +1,6 @@
 SPECIFICATION Spec
 CONSTANTS N = 8
           MaxPerm = 4
+          Repeats = TRUE
           Emit = TRUE
 INVARIANT MapsExactly
